@@ -224,7 +224,7 @@ var allCodes = func() []uint32 {
 	for c := uint32(0); c <= 16; c++ {
 		cs = append(cs, c)
 	}
-	return append(cs, 17, 18, 100, 1<<31, math.MaxUint32)
+	return append(cs, 17, 18, 19, 31, 32, 63, 64, 100, 255, 256, math.MaxInt32, 1<<31, math.MaxUint32)
 }()
 
 // ------------------------------------------------------------------ oracle
@@ -353,6 +353,9 @@ func check05(c *Case, o *Obs, rec Rec) (vs []viol, inconclusive string) {
 	}
 	if stop {
 		return vs, ""
+	}
+	if c.Route != "" && !o.Timeout {
+		return append(vs, check05HTTPShape(c, o, rec)...), ""
 	}
 	if c.Hold && o.Timeout && rec.Done && o.Stuck != "" {
 		// generous watchdog + goroutine dump: the handler has returned its
@@ -579,6 +582,101 @@ func larkingFrames(dump string) string {
 	return strings.Join(fr, " < ")
 }
 
+func ctClass(ct string) string {
+	switch mt := strings.ToLower(strings.TrimSpace(strings.SplitN(ct, ";", 2)[0])); {
+	case ct == "-":
+		return "ct-absent"
+	case mt == "application/json" || mt == "application/protobuf" || mt == "application/octet-stream":
+		if strings.Contains(ct, ";") {
+			return "ct-registered+params"
+		}
+		if mt != ct {
+			return "ct-registered-other-case"
+		}
+		return "ct-registered"
+	case strings.Count(mt, "/") == 1 && !strings.ContainsAny(mt, " ,") && !strings.HasPrefix(mt, "/") && !strings.HasSuffix(mt, "/"):
+		return "ct-foreign"
+	}
+	return "ct-malformed"
+}
+
+func acceptClass(a string) string {
+	switch {
+	case a == "-":
+		return "accept-absent"
+	case a == "*/*" || a == "application/*":
+		return "accept-wildcard"
+	case strings.HasPrefix(a, "application/json") && !strings.Contains(a, ";") || strings.HasPrefix(a, "application/protobuf") && !strings.Contains(a, " "):
+		return "accept-match"
+	case strings.Contains(a, "application/json") || strings.Contains(a, "application/protobuf"):
+		return "accept-match-in-list-or-params"
+	case strings.Count(a, "/") >= 1 && !strings.Contains(a, ";;"):
+		return "accept-no-match"
+	}
+	return "accept-malformed"
+}
+
+// check05HTTPShape judges an HTTP failure under arbitrary Content-Type /
+// Accept headers: whatever the media types, the client gets the documented
+// HTTP status and a google.rpc.Status it can decode by the response
+// Content-Type - for a handler error the handler's status, for an error the
+// mux raises itself (no route, no codec) a non-OK status whose code the HTTP
+// status matches.
+func check05HTTPShape(c *Case, o *Obs, rec Rec) (vs []viol) {
+	sc := &c.Script
+	pc := "http"
+	if c.Target != "" {
+		pc += "@" + c.Target
+	}
+	kind := "mux-error"
+	if rec.Ran {
+		kind = "handler-error"
+	}
+	cls := kind + "," + ctClass(c.ReqCT) + "," + acceptClass(c.Accept)
+	add := func(obs, _ string, what string) {
+		vs = append(vs, viol{pc + ":" + obs + ":" + cls, fmt.Sprintf("%s %s (Content-Type %+q, Accept %+q): %s", c.Route, c.Proto, c.ReqCT, c.Accept, what)})
+	}
+	if o.Err != "" {
+		add("no-response", "", "client got no usable response: "+ascii(clip(o.Err, 160)))
+		return vs
+	}
+	if rec.Ran && sc.Code == 0 {
+		return vs // successful call: not this property
+	}
+	if o.HTTP < 400 {
+		add("http-status", "", fmt.Sprintf("the failing call was answered with HTTP %d", o.HTTP))
+		return vs
+	}
+	st, why := decodeHTTPStatus(o)
+	if st == nil {
+		add("status-body-undecodable", "", why)
+		return vs
+	}
+	if rec.Ran {
+		ok := false
+		for _, w := range wantHTTP(sc.Code) {
+			ok = ok || w == o.HTTP
+		}
+		if !ok {
+			add("http-status", "", fmt.Sprintf("HTTP status %d for code %d, documented %v", o.HTTP, sc.Code, wantHTTP(sc.Code)))
+		}
+		checkStatusProto(st, sc, "HTTP error body", add)
+		return vs
+	}
+	if st.GetCode() == 0 {
+		add("status-body-code", "", fmt.Sprintf("HTTP %d with a google.rpc.Status of code OK", o.HTTP))
+		return vs
+	}
+	ok := false
+	for _, w := range wantHTTP(uint32(st.GetCode())) {
+		ok = ok || w == o.HTTP
+	}
+	if !ok {
+		add("http-status", "", fmt.Sprintf("HTTP status %d with a body of code %d (%+q), documented %v", o.HTTP, st.GetCode(), clip(st.GetMessage(), 80), wantHTTP(uint32(st.GetCode()))))
+	}
+	return vs
+}
+
 // answered reports that the client received a definite protocol-level answer.
 func answered(o *Obs) bool {
 	return o.Err == "" && !o.Timeout && (o.WSClose || o.HasStatus || o.HTTP >= 400)
@@ -672,7 +770,9 @@ func runC05Job(env *Env, j c05Job) c05Outcome {
 	case rec.Ran && c.Script.Code != 0 && rec.Sent == 0 && o.HTTP != 0:
 		out.obsKind = "http_error_bodies_observed"
 	}
-	if rec.Ran && out.inc == "" {
+	if c.Route != "" && o.HTTP != 0 && out.inc == "" {
+		out.distinct = fmt.Sprintf("%s:%s/shape/%s/%s/%s/%s/ran=%v", c.Target, protoFamily(c.Proto), c.Route, c.Method, ctClass(c.ReqCT), acceptClass(c.Accept), rec.Ran)
+	} else if rec.Ran && out.inc == "" {
 		cc := "ok"
 		switch {
 		case c.Script.Code > 17:
@@ -764,7 +864,7 @@ func (g *c05Runner) flush() {
 
 // RunC05 is the status / error fidelity check.
 func RunC05(r *mon.Run) {
-	r.Rule = "a scripted handler behind a real Mux returns status (code, message, optional 2 details) before any reply or after 1 / 3 replies; one client per protocol observes the outcome: HTTP JSON/protobuf and Twirp (in-process and HTTP/1 socket), grpc-go over h2c, raw gRPC frames in-process and over h2c, gRPC-web binary/text (in-process and HTTP/1 socket), WebSocket (socket). Cases = (all 22 codes x 3 base messages) + (2-3 codes x every message of the message set: empty, ASCII, single bytes embedded in text, '%' at start/middle/end, multi-byte tails, 1 KiB, 70 KiB, 123/124-byte close-frame boundary, seeded random mixes of ASCII / '%' / control / multi-byte pieces), each with and without details, on every protocol x codec x method x reply-count variant, plus a class where the handler calls SetHeader / SendHeader / SetTrailer with custom metadata at entry or right before it returns the status, plus muxes built with small MaxSendMessageSize / MaxReceiveMessageSize options (64, 256 bytes) x long messages / details, plus client- and bidi-streaming gRPC clients (grpc-go, raw h2c) that keep their send side open until the status arrives (10 s watchdog + goroutine dump), plus a small class where the call's deadline has expired before the handler returns. Every class runs against the handler registered on the mux and (quick: reduced matrix) against the same handler on a real grpc.Server back-end that a second mux proxies through RegisterConn (codes up to 2^31-1). An execution is non-trivial when the scripted handler ran; distinct = (target, protocol, codec, method, replies before status, code class, message shape, details?)"
+	r.Rule = "a scripted handler behind a real Mux returns status (code, message, optional 2 details) before any reply or after 1 / 3 replies; one client per protocol observes the outcome: HTTP JSON/protobuf and Twirp (in-process and HTTP/1 socket), grpc-go over h2c, raw gRPC frames in-process and over h2c, gRPC-web binary/text (in-process and HTTP/1 socket), WebSocket (socket). Cases = (codes 0..16, 17, 18, 19, 31, 32, 63, 64, 100, 255, 256, 2^31-1, 2^31, 2^32-1 x 3 base messages) + (2-3 codes x every message of the message set: empty, ASCII, single bytes embedded in text, '%' at start/middle/end, multi-byte tails, 1 KiB, 70 KiB, 123/124-byte close-frame boundary, seeded random mixes of ASCII / '%' / control / multi-byte pieces), each with and without details, on every protocol x codec x method x reply-count variant, plus a class where the handler calls SetHeader / SendHeader / SetTrailer with custom metadata at entry or right before it returns the status, plus HTTP failures (handler errors on body-less GET and HttpBody upload routes, errors of the mux itself: no codec, no route, wrong verb, unknown method) under 11 request Content-Type x 11 Accept values (absent, registered, with parameters, other case, foreign, wildcard, non-matching, malformed), plus muxes built with small MaxSendMessageSize / MaxReceiveMessageSize options (64, 256 bytes) x long messages / details, plus client- and bidi-streaming gRPC clients (grpc-go, raw h2c) that keep their send side open until the status arrives (10 s watchdog + goroutine dump), plus a small class where the call's deadline has expired before the handler returns. Every class runs against the handler registered on the mux and (quick: reduced matrix) against the same handler on a real grpc.Server back-end that a second mux proxies through RegisterConn (codes up to 2^31-1). An execution is non-trivial when the scripted handler ran; distinct = (target, protocol, codec, method, replies before status, code class, message shape, details?)"
 	r.Floor = 150
 	env, err := newEnv()
 	if err != nil {
@@ -917,6 +1017,34 @@ func RunC05(r *mon.Run) {
 							if code == 0 && v.method != "Echo" && v.replies == 0 {
 								c.Script.Replies = 2
 							}
+							g.exec(c, c.Class)
+						}
+					}
+				}
+			}
+		}
+	}
+
+	// HTTP failures under arbitrary request Content-Type / Accept headers:
+	// handler errors (routes that reach the handler whatever the media type)
+	// and errors the mux raises itself (no codec, no route)
+	cts := []string{"-", "application/json", "application/protobuf", "application/json; charset=utf-8", "Application/JSON", "text/plain; charset=utf-8", "image/png", "application/x-www-form-urlencoded", "multipart/form-data; boundary=x", "not a media type", ""}
+	accepts := []string{"-", "*/*", "application/*", "application/json", "application/protobuf", "application/protobuf;q=0.5, application/json", "application/json; charset=utf-8", "image/*", "text/html, image/webp", "a/b;;q=x,,", ""}
+	for _, target := range []string{"", "proxy"} {
+		for _, p := range []string{"http", "http-sock"} {
+			if p == "http-sock" && target == "proxy" && !r.Thorough() {
+				continue
+			}
+			for _, rt := range []struct{ route, method string }{{"get", "Echo"}, {"get", "SS"}, {"upload", "UploadU"}, {"post", "Echo"}, {"404", "Echo"}, {"405", "Echo"}, {"deep-path", "Echo"}, {"no-method", "Echo"}} {
+				for _, ct := range cts {
+					for _, ac := range accepts {
+						codes := []uint32{5}
+						if rt.route == "get" || rt.route == "upload" {
+							codes = []uint32{5, 16}
+						}
+						for _, code := range codes {
+							c := &Case{Kind: "C05http", Proto: p, Codec: "json", Method: rt.method, Class: "http-shape", Target: target, Route: rt.route, ReqCT: ct, Accept: ac,
+								Script: Script{Code: code, Msg: "50% done ✓", Details: code == 16}}
 							g.exec(c, c.Class)
 						}
 					}
